@@ -1,0 +1,9 @@
+// +build !verif
+
+package sleep
+
+func verifYield(site string) {}
+
+func verifPark(wg *uintptr) bool { return false }
+
+func verifReady(g uintptr) bool { return false }
